@@ -33,6 +33,12 @@ var zzC01Sinks = []string{
 	/* 11 */ `<p class="k" :class="val">c</p>`,
 	/* 12 */ `<p v-if="no">x</p><p v-else :id="val">{{ val }}</p>`,
 	/* 13 */ `<template v-for="it in items"><i>{{ it }}</i></template>`,
+	/* 14 */ `<p class="box {{ w }}" :class="val">c</p>`,
+	/* 15 */ `<a title="t {{ w }}" :title="val">t</a>`,
+	/* 16 */ `<p style="color:{{ w }}" :style="val">s</p>`,
+	/* 17 */ `<p v-show="no" :data-x="val" data-y="{{ val }}">s</p>`,
+	/* 18 */ `<q v-if="no">n</q><q v-else-if="ok" :title="val" class="{{ w }}">{{ val }}</q>`,
+	/* 19 */ `<ul><li v-for="(i, it) in items" v-if="i == 0" :title="it">{{ it }}</li></ul>`,
 }
 
 func zzC01FS() *zzFS {
@@ -44,7 +50,7 @@ func zzC01FS() *zzFS {
 
 func zzC01Render(k int, val string) (string, error) {
 	tpl := NewFS(zzC01FS())
-	data := map[string]any{"val": val, "ok": true, "no": false, "items": []string{val, "w"}, "k": "QQQ"}
+	data := map[string]any{"val": val, "ok": true, "no": false, "items": []string{val, "w"}, "k": "QQQ", "w": "word"}
 	return zzRender(tpl, zzC01Sinks[k], data)
 }
 
